@@ -1,5 +1,5 @@
 import io
-from impl import op, hx, unhx, err
+from impl import op, hx, unhx, err, CStream
 import impl_bf3 as b3
 from bec2format.bf3file import Bf3File, Bf2BinLine, pfid2_filter_to_str, BF3FMT
 
@@ -43,7 +43,7 @@ def _import(text, enforce=True, force_path=None):
     use_path = text.isascii() and "\r" not in text and (zlib.crc32(text.encode()) % 3 == 0 if force_path is None else force_path)
     if not use_path:
         # enforcing BF3 compatibility is the default of the parameter: left out every other time it is wanted
-        return Bf3File.bf2_import(io.StringIO(text)) if enforce and len(text) % 2 else Bf3File.bf2_import(io.StringIO(text), enforce)
+        return Bf3File.bf2_import(CStream(text)) if enforce and len(text) % 2 else Bf3File.bf2_import(CStream(text), enforce)
     p = b3.tmp_path()
     try:
         with open(p, "w", newline="") as fh:
